@@ -299,6 +299,159 @@ theorem comment_after {o : Nat} {s s' : S} (h : After text δ o s)
         exact (h2.next hne2).of_core rfl
     · cases he
 
+/-! ## Diagnostics of scan.c: `error(&s->loc, …)` names the line of the current character -/
+
+/-- the line of a scanner diagnostic is the line (shifted by `δ`) of some byte at or behind `o`,
+as `nextchar` counts it: the line of that byte, or the next line when the byte is a new-line -/
+def ErrLine (text : List UInt8) (δ : Int) (o : Nat) (e : Err) : Prop :=
+  ∃ o', o ≤ o' ∧ o' ≤ text.length ∧ (e.loc.line : Int) = (locAt text o').line + δ
+
+theorem errLine_of_inv {o : Nat} {s : S} (h : Inv text δ s) (k : ErrKind) (ho : o ≤ off s) :
+    ErrLine text δ o ⟨s.loc, k⟩ := ⟨off s, ho, h.off_le, h.loc.1⟩
+
+theorem After.errLine {o : Nat} {s : S} (h : After text δ o s) (k : ErrKind) :
+    ErrLine text δ o ⟨s.loc, k⟩ := errLine_of_inv h.inv k (Nat.le_of_lt h.lt)
+
+theorem ErrLine.mono {o o' : Nat} {e : Err} (h : ErrLine text δ o e) (hle : o' ≤ o) :
+    ErrLine text δ o' e := by
+  obtain ⟨x, a, b, c⟩ := h
+  exact ⟨x, Nat.le_trans hle a, b, c⟩
+
+/-- reading EOF again moves the column, not the line -/
+theorem nextchar_eof_line {s : S} (h : Inv text δ s) (hn : s.inp = []) :
+    s.nextchar.loc.line = s.loc.line := by
+  have ht : s.inp.tail = [] := by rw [hn]; rfl
+  obtain ⟨_, _, _, _, a5⟩ := nextchar_nil s ht
+  have hsk := (h.eof hn).2
+  have htr : s.trail = 0 := by
+    have := h.raw
+    rw [ht, (h.eof hn).1] at this
+    simp [group] at this
+    exact this.symm
+  rw [a5, hsk, htr]
+  simp [advSplice]
+
+theorem escape_err {o : Nat} {s : S} {e : Err} (h : After text δ o s) (hne : s.inp ≠ [])
+    (he : escape s = .error e) : ErrLine text δ o e := by
+  have h1 := h.next hne
+  unfold escape at he
+  simp only [] at he
+  split at he
+  · rename_i hx
+    have h2 := h1.next (inp_ne_of_chr hx)
+    split at he
+    · simp only [Except.error.injEq] at he
+      subst he
+      exact h2.errLine _
+    · cases he
+  · split at he
+    · split at he
+      · split at he <;> cases he
+      · cases he
+    · split at he
+      · cases he
+      · simp only [Except.error.injEq] at he
+        subst he
+        exact h1.errLine _
+
+theorem litLoop_err {o : Nat} (str : Bool) : ∀ (n : Nat) (s : S) (e : Err),
+    After text δ o s → litLoop str n s = .error e → ErrLine text δ o e := by
+  cases str
+  all_goals
+    intro n
+    induction n with
+    | zero =>
+      intro s e h he
+      simp only [litLoop, Except.error.injEq] at he
+      subst he
+      exact h.errLine _
+    | succ n ih =>
+      intro s e h he
+      unfold litLoop at he
+      simp only [Bool.false_eq_true, if_false, if_true] at he
+      split at he
+      · simp only [Except.error.injEq] at he
+        subst he
+        exact h.errLine _
+      · rename_i c hc
+        have hne := inp_ne_of_chr hc
+        split at he
+        · split at he
+          · rename_i e1 hesc
+            simp only [Except.error.injEq] at he
+            subst he
+            exact escape_err h hne hesc
+          · rename_i s1 hesc
+            exact ih _ _ (escape_after h hne hesc) he
+        · split at he
+          · cases he
+          · split at he
+            · simp only [Except.error.injEq] at he
+              subst he
+              exact h.errLine _
+            · split at he
+              · simp only [Except.error.injEq] at he
+                subst he
+                exact h.errLine _
+              · exact ih _ _ (h.next hne) he
+
+theorem charconst_err {o : Nat} {s : S} {e : Err}
+    (h1 : After text δ o ({ s with usebuf := true } : S).nextchar)
+    (he : charconst s = .error e) : ErrLine text δ o e := by
+  unfold charconst at he
+  exact litLoop_err false _ _ _ h1 he
+
+theorem stringlit_err {o : Nat} {s : S} {e : Err}
+    (h1 : After text δ o ({ s with usebuf := true } : S).nextchar)
+    (he : stringlit s = .error e) : ErrLine text δ o e := by
+  unfold stringlit at he
+  exact litLoop_err true _ _ _ h1 he
+
+theorem blockLoop_err {o : Nat} : ∀ (n : Nat) (s : S) (e : Err), After text δ o s →
+    blockLoop n s = .error e → ErrLine text δ o e := by
+  intro n
+  induction n with
+  | zero =>
+    intro s e h he
+    simp only [blockLoop, Except.error.injEq] at he
+    subst he
+    exact h.errLine _
+  | succ n ih =>
+    intro s e h he
+    unfold blockLoop at he
+    simp only [] at he
+    split at he
+    · simp only [Except.error.injEq] at he
+      subst he
+      by_cases hne : s.inp = []
+      · refine ⟨off s, Nat.le_of_lt h.lt, h.inv.off_le, ?_⟩
+        show ((s.nextchar.loc.line : Nat) : Int) = _
+        rw [nextchar_eof_line h.inv hne]
+        exact h.inv.loc.1
+      · exact (h.next hne).errLine _
+    · rename_i hc
+      have hne : s.inp ≠ [] := chr_nextchar_ne hc
+      split at he
+      · exact ih _ _ (h.next hne) he
+      · cases he
+
+theorem comment_err {o : Nat} {s : S} {e : Err} (h : After text δ o s)
+    (he : comment s = .error e) : ErrLine text δ o e := by
+  unfold comment at he
+  split at he
+  · cases he
+  · split at he
+    · rename_i hc
+      have h1 := h.next (inp_ne_of_chr hc)
+      simp only [] at he
+      split at he
+      · rename_i e1 hb
+        simp only [Except.error.injEq] at he
+        subst he
+        exact blockLoop_err _ _ _ h1 hb
+      · cases he
+    · cases he
+
 /-! ## The `..x` push-back -/
 
 /-- a correct state strictly behind offset `o`, possibly with a pending push-back -/
